@@ -57,6 +57,16 @@ pub fn scenario_ex(ctx: &mut Ctx, r: &mut Rng, focus: Focus, monitor: fn(&mut Ct
     // balancing reported success and set a fee of its own choice, and the library's own strict build then finds
     // that fee below its minimum: the fee the builder set is insufficient (build(), which does not check,
     // hands the same body out). A fee the caller fixed is the caller's; the build failing is the stated outcome.
+    // balancing reported success and the library's own strict build then finds inputs and outputs unequal: one of
+    // the two is wrong about the same builder state
+    if let (Ok(_), Err(e)) = (&o.balance_result, &o.build_result) {
+        if e.contains("Total input and total output are not equal") {
+            ctx.bucket("outcome.build-err.not-balanced-after-balancing");
+            if ctx.prop == "C05" {
+                ctx.violation("balancing-ok/build_tx-finds-inputs-and-outputs-unequal", json!({"history": o.log, "error": e.chars().take(600).collect::<String>()}));
+            }
+        }
+    }
     if let (Ok(_), Err(e)) = (&o.balance_result, &o.build_result) {
         if e.contains("Fee is less than the minimum fee") {
             ctx.bucket("outcome.build-err.fee-below-own-minimum");
